@@ -242,8 +242,9 @@ def cmdSearch (rest : String) (tt : TT) : List String × TT :=
     let cfg : Cfg := { world := fun k => { lines := (o.inject.filter (·.1 == k)).map (·.2) }, maxTime := o.maxTime,
                        subMask := o.subMask, ttBypass := o.bypass, trace := o.trace }
     let (r, e) := search chessRules cfg g o.depth tt rep
-    if e.rep.overflow then (e.out.toList ++ ["!panic"], e.tt) else
-    let lines := e.out.toList ++
+    let printed := if o.trace == 2 then e.log.toList else e.out.toList
+    if e.rep.overflow then (printed ++ ["!panic"], e.tt) else
+    let lines := printed ++
       [ row "deferred" e.deferred, row "pending" (e.chan.map fun l => l.trimAscii.toString),
         s!"result best={r.bestMove.hex} nodes={r.nodes} score={r.score} depth={r.depth} complete={if r.complete then 1 else 0} tthits={r.ttHits}",
         row "polls" (e.pollLog.toList.map toString),
